@@ -85,7 +85,8 @@ fn same_bb(region: &region::Configuration, rf: &RfConfig, dr: u8) -> bool {
 }
 
 fn rx_windows_step(ri: usize) {
-    let r = rt::REGIONS[ri];
+    crate::mac::verif_kani_lorawan_device_mac_common::vinit();
+    let r = rt::region_ut(ri);
     let mut mac = any_mac_pub(ri);
     let cfg = mac.configuration;
     let mut rng = mc::AnyRng::new(3);
@@ -101,7 +102,7 @@ fn rx_windows_step(ri: usize) {
     let up = match dr_index(&mac.region, &tx.rf.bb) {
         Some(d) => d,
         None => {
-            assert!(false, "C10: the uplink data rate is one the region defines");
+            crate::vcheck!(false, "C10: the uplink data rate is one the region defines");
             return;
         }
     };
@@ -114,26 +115,26 @@ fn rx_windows_step(ri: usize) {
     }
     if let Some(want) = ref_rx1(r, up, cfg.rx1_dr_offset) {
         if mac.region.get_datarate(want).is_some() {
-            assert!(same_bb(&mac.region, &w.rx1, want), "C10: RX1 data rate must follow the regional RX1 table for (uplink data rate, RX1 offset)");
+            crate::vcheck!(same_bb(&mac.region, &w.rx1, want), "C10: RX1 data rate must follow the regional RX1 table for (uplink data rate, RX1 offset)");
         }
     }
-    assert!(dr_index(&mac.region, &w.rx1.bb).is_some(), "C10: RX1 uses a LoRa data rate the region defines");
+    crate::vcheck!(dr_index(&mac.region, &w.rx1.bb).is_some(), "C10: RX1 uses a LoRa data rate the region defines");
     // RX2: negotiated or regional default frequency and data rate
     let f2 = cfg.rx2_frequency.unwrap_or(f2_def);
-    assert!(w.rx2.frequency == f2, "C10: RX2 frequency is the negotiated one or the regional default");
+    crate::vcheck!(w.rx2.frequency == f2, "C10: RX2 frequency is the negotiated one or the regional default");
     let d2 = match cfg.rx2_data_rate { Some(d) => d as u8, None => dr2_def };
-    assert!(same_bb(&mac.region, &w.rx2, d2), "C10: RX2 data rate is the negotiated one or the regional default");
+    crate::vcheck!(same_bb(&mac.region, &w.rx2, d2), "C10: RX2 data rate is the negotiated one or the regional default");
     // Class C listens with the RX2 parameters
     #[cfg(feature = "class-c")]
     {
         let c = mac.get_rxc_config();
-        assert!(c.rf.frequency == f2 && same_bb(&mac.region, &c.rf, d2), "C10: Class C listening uses the RX2 parameters");
-        assert!(matches!(c.mode, RxMode::Continuous), "C10: Class C listening is continuous");
+        crate::vcheck!(c.rf.frequency == f2 && same_bb(&mac.region, &c.rf, d2), "C10: Class C listening uses the RX2 parameters");
+        crate::vcheck!(matches!(c.mode, RxMode::Continuous), "C10: Class C listening is continuous");
     }
     // delays
-    assert!(mac.get_rx_delay(&Frame::Data, &Window::_1) == cfg.rx1_delay, "C10: RX1 opens after the negotiated delay");
-    assert!(mac.get_rx_delay(&Frame::Data, &Window::_2) == cfg.rx1_delay + 1000, "C10: RX2 opens one second after RX1");
-    assert!(mac.get_rx_delay(&Frame::Join, &Window::_1) == 5000 && mac.get_rx_delay(&Frame::Join, &Window::_2) == 6000, "C10: join accept delays are 5 s and 6 s");
+    crate::vcheck!(mac.get_rx_delay(&Frame::Data, &Window::_1) == cfg.rx1_delay, "C10: RX1 opens after the negotiated delay");
+    crate::vcheck!(mac.get_rx_delay(&Frame::Data, &Window::_2) == cfg.rx1_delay + 1000, "C10: RX2 opens one second after RX1");
+    crate::vcheck!(mac.get_rx_delay(&Frame::Join, &Window::_1) == 5000 && mac.get_rx_delay(&Frame::Join, &Window::_2) == 6000, "C10: join accept delays are 5 s and 6 s");
     kani::cover!(cfg.rx1_dr_offset > 0, "non-zero RX1 offset");
 }
 
